@@ -135,6 +135,7 @@ def load_prop(pid):
 
 
 ALL_PROPS = ['C%02d' % i for i in range(1, 21)]
+FOREIGN_QUICK_STRIDE = 16
 
 
 class ForeignCtx(object):
@@ -249,17 +250,20 @@ def run_shard(pid, tier, seed, shard, nshards, out, only_case=None):
                         for fn in sorted(os.listdir(tdir)):
                             if fn.startswith('test_') and fn.endswith('.py') and fn != 'test_performace.py':
                                 yield {'k': '__repotests__', 'file': fn}
-                # thorough tier: the quick workloads of all OTHER properties are further sources of events for this property's judges
-                if tier == 'thorough' and getattr(prop, 'FOREIGN_WORKLOADS', True) and os.environ.get('FXPVERIF_NO_FOREIGN') != '1':
-                    for fpid in ALL_PROPS:
+                # the quick workloads of all OTHER properties are further sources of events for this property's judges: all of their cases in the
+                # thorough tier, one case in FOREIGN_QUICK_STRIDE (a different residue for every seed) in the quick tier
+                if getattr(prop, 'FOREIGN_WORKLOADS', True) and os.environ.get('FXPVERIF_NO_FOREIGN') != '1':
+                    stride = 1 if tier == 'thorough' else FOREIGN_QUICK_STRIDE
+                    for fn_, fpid in enumerate(ALL_PROPS):
                         if fpid == pid:
                             continue
                         try:
                             fprop = load_prop(fpid)
                         except Exception:
                             continue
-                        for c in fprop.cases('quick', seed):
-                            yield {'k': '__foreign__', 'prop': fpid, 'case': c}
+                        for ci, c in enumerate(fprop.cases('quick', seed)):
+                            if (ci + seed + fn_) % stride == 0:
+                                yield {'k': '__foreign__', 'prop': fpid, 'case': c}
             cases = (c for i, c in enumerate(all_cases()) if i % nshards == shard)
         budget = getattr(prop, 'SHARD_BUDGET_S', {}).get(tier)
         truncated = 0
